@@ -194,6 +194,20 @@ func genC01(c *Ctx, emit func(class, op string)) {
 		}
 		emit("stream-mixed", "stream "+defaultStart+" "+hx(bs))
 	}
+	// a valid frame followed by damaged copies of itself (payload bits changed, CRC bytes as sent),
+	// and by frames that share its type, leading bytes and low length byte
+	for i := 0; i < c.N(60, 600); i++ {
+		var bs []byte
+		for _, sg := range siblingSegs(r) {
+			bs = append(bs, sg.b...)
+			if sg.kind == 'f' && r.Intn(2) == 0 {
+				g := append([]byte{}, sg.b...)
+				g[3+r.Intn(len(g)-6)] ^= byte(1 << uint(r.Intn(8)))
+				bs = append(bs, g...)
+			}
+		}
+		emit("stream-damaged-retransmission", "stream "+defaultStart+" "+hx(bs))
+	}
 }
 
 func oracleC01(op string, o *Obs) string {
@@ -555,10 +569,46 @@ func genC03(c *Ctx, emit func(class, op string)) {
 			emit("d3-in-leader", segOp([]seg{{'f', mkFrame(p)}, {'f', randFrame(r, 1+r.Intn(20))}, {'j', junkRun(r, 1+r.Intn(5))}}))
 		}
 	}
+	for i := 0; i < c.N(60, 600); i++ {
+		emit("sibling-frames", segOp(siblingSegs(r)))
+	}
 	// every frame length back to back with a one-byte junk in front
 	for _, n := range lengthsFor(c) {
 		emit("all-lengths", segOp([]seg{{'j', junkRun(r, 1)}, {'f', randFrame(r, n)}, {'f', randFrame(r, 1+r.Intn(20))}}))
 	}
+}
+
+// siblingSegs: consecutive frames that look alike to anything that remembers the previous frame -
+// the same type and leading payload bytes, lengths that differ by a multiple of 256 (the same low
+// length byte), by one, or not at all (verbatim retransmissions), with or without other data between.
+func siblingSegs(r *rand.Rand) []seg {
+	typ := pickType(r)
+	base := 2 + r.Intn(254)
+	head := payloadOfType(r, typ, 8)
+	var segs []seg
+	var prev []byte
+	n := 2 + r.Intn(4)
+	for k := 0; k < n; k++ {
+		ln := base + []int{0, 256, 512, 768, 0, 1, -1}[r.Intn(7)]
+		if ln < 2 {
+			ln = 2
+		}
+		if ln > 1023 {
+			ln -= 256
+		}
+		p := payloadOfType(r, typ, ln)
+		copy(p, head[:2+r.Intn(7)])
+		f := mkFrame(p)
+		if prev != nil && r.Intn(4) == 0 {
+			f = prev // retransmitted unchanged
+		}
+		segs = append(segs, seg{'f', f})
+		prev = f
+		if r.Intn(3) == 0 {
+			segs = append(segs, seg{'j', junkRun(r, 1+r.Intn(10))})
+		}
+	}
+	return segs
 }
 
 // corruptFrame alters payload/CRC bytes (never the leader) so that the CRC fails.
@@ -625,6 +675,32 @@ func genC12(c *Ctx, emit func(class, op string)) {
 	}
 	for i := 0; i < c.N(60, 600); i++ {
 		emit("several-victims", segOp(randSegs(c, true)))
+	}
+	// a frame, then the same frame again with some payload bits damaged on the way and its CRC
+	// bytes intact (what a receiver that repeats its station messages produces on a noisy line)
+	for i := 0; i < c.N(60, 600); i++ {
+		segs := siblingSegs(r)
+		var idx []int
+		for k, sg := range segs {
+			if sg.kind == 'f' {
+				idx = append(idx, k)
+			}
+		}
+		v := idx[r.Intn(len(idx))]
+		orig := segs[v].b
+		g := append([]byte{}, orig...)
+		for {
+			k := 5 + r.Intn(len(g)-3-5+1) // payload bytes after the type, CRC bytes untouched
+			if k >= len(g)-3 {
+				k = 3 + r.Intn(len(g)-6)
+			}
+			g[k] ^= byte(1 << uint(r.Intn(8)))
+			if !bytes.Equal(mkFrame(g[3:len(g)-3]), g) {
+				break
+			}
+		}
+		out := append(append(append([]seg{}, segs[:v+1]...), seg{'c', g}), segs[v+1:]...)
+		emit("corrupted-retransmission", segOp(out))
 	}
 	// MSM frames with non-decreasing timestamps, the victim's timestamp or type bits altered to
 	// another plausible value; the intact frame rides along (o:) for the comparison of the
@@ -701,7 +777,7 @@ func init() {
 	props["C01"] = &Prop{
 		Rule: "ops getmsg/stream: valid frames of payload length 1..40,255..257,1021..1023+random (thorough: all 1..1023) and random types; " +
 			"each CRC byte corrupted alone; each reserved bit set alone; length field off by one with matching CRC; every truncation; wrong preamble; " +
-			"frame + trailing bytes incl. the CRC-over-the-long-buffer input; batches; zero length; mixed streams with embedded 0xD3. " +
+			"frame + trailing bytes incl. the CRC-over-the-long-buffer input; batches; zero length; mixed streams with embedded 0xD3; frames followed by damaged copies of themselves (CRC bytes as sent) and by siblings with the same type, leading bytes and low length byte. " +
 			"non-trivial = the real code returned at least one message; distinct = distinct op line",
 		Gen: genC01, Oracle: oracleC01,
 	}
@@ -715,14 +791,14 @@ func init() {
 	props["C03"] = &Prop{
 		Rule: "op streamseg: random sequences of valid frames (all lengths, payload/CRC bytes forced to 0xD3, >255-byte payloads), 0xD3-free junk runs " +
 			"(incl. one-byte runs and adjacent runs), optional truncated last frame cut at every position; expected messages computed from the segment list; " +
-			"non-trivial = at least one frame segment; distinct = distinct op line",
+			"sibling frames: same type and leading payload bytes, lengths equal (incl. verbatim repeats) or differing by 1 or by a multiple of 256; non-trivial = at least one frame segment; distinct = distinct op line",
 		Gen: genC03, Oracle: oracleSegs,
 		NonTrivial: func(op string, o *Obs) bool { return strings.Contains(op, " f:") },
 	}
 	props["C12"] = &Prop{
 		Rule: "op streamseg with corrupted frames (c:): one victim per stream (1-bit flips, bursts, 0xD3 written into payload/CRC, CRC byte overwritten, " +
 			"scattered bytes; leader untouched; CRC verified to mismatch) plus the intact stream, optional truncated tail, and streams with several victims; " +
-			"MSM streams with non-decreasing timestamps whose victim has its timestamp or type bits altered to another plausible value, the neighbours compared in full " +
+			"sibling frames (same type and leading bytes, lengths equal or differing by 1 or by multiples of 256) with a damaged copy of one of them, its CRC bytes intact, right behind the original; MSM streams with non-decreasing timestamps whose victim has its timestamp or type bits altered to another plausible value, the neighbours compared in full " +
 			"(type, bytes, error, timestamp, time lines) with the run of the uncorrupted stream; " +
 			"non-trivial = contains a corrupted frame; distinct = distinct op line",
 		Gen: genC12, Oracle: oracleC12,
